@@ -27,6 +27,12 @@ CLAIMS = {
          "Resolution replaces iff the new Version is strictly greater than the kept one (compared as Version objects), keyed by name, result in first-occurrence order; collection is pre-order with dedup only at the top; every script/stylesheet/meta form is normalised to a list and validated for its required keys before it is stored; non-dict/keyless sources are rejected."),
  "C14": ("taint-with-sanitiser over TagList's effective mutator set (own + UserList parsed from the stdlib) via Engine A effect logs; dispatch tables of the normaliser, flatten, is_tag_node, is_tag_child", "4/C14",
          "Every listed operation stores only results of the normaliser (or re-enters the checked constructor); normalisation precedes every storage write in each mutator (failure atomicity); the per-kind tables of the normaliser and of flatten are the documented ones; is_tag_child accepts every accepted kind and is_tag_node every stored kind."),
+ "C15": ("abstract interpretation of TagAttrDict (value dispatch table, name pipeline evaluated on the property's raw-name shapes, per-path merge table of update, argument order, single final dict.update), Tag.__init__ partition and consolidate_attrs forwarding", "4/C15",
+         "Names: one trailing underscore stripped then underscores to hyphens; values: None/False dropped, True empty, numbers as text; repeated names joined existing+' '+new in argument order into a per-call dict that is written once (so later updates replace); Tag.__init__ and consolidate_attrs split arguments by the same predicate."),
+ "C16": ("abstract interpretation of add_class/remove_class/has_class/add_style (effect traces with TagAttrDict opaque) and of css()'s loop body; key pipeline evaluated on sample property names", "4/C16",
+         "Structural part only: helpers return self; add_style's semicolon test is on every accepting path and precedes the write; (new, old) order iff prepend; has_class is membership in split(); remove_class filters split() tokens by != and re-joins or pops; css appends one declaration per non-None argument. The token-set algebra over histories is not decided."),
+ "C17": ("effect-order analysis (Engine A traces) of Tag.__enter__/__exit__ and dispatch table of the display-hook wrapper", "4/C17",
+         "On every path of __exit__ the saved hook is restored before foreign code runs and the tag is handed to it exactly once; __enter__ raises before writing anything when the tag is active and saves the hook before replacing it; wrapper table per value kind. Nesting follows by induction on depth."),
 }
 checks = []
 for pid, (tech, ref, text) in sorted(CLAIMS.items()):
